@@ -65,6 +65,7 @@ def fan_transcript(ch, r):
     client = ch.bool()
     default_ctor = client and ch.bool()
     small_memory = ch.chance(64)
+    loose = False
     if default_ctor:
         ep = Endpoint(True, conn=h2.connection.H2Connection())
         r.labels.add('fan:default-constructed-client')
@@ -74,7 +75,11 @@ def fan_transcript(ch, r):
         ep = Endpoint(client, conn=cls(h2.config.H2Configuration(client_side=client)))
         r.labels.add('fan:small-closed-stream-memory')
     else:
-        ep = Endpoint(client, header_encoding=ch.pick([None, None, 'utf-8', 'latin-1']))
+        # (one client in four has outbound validation off: it may then send lists no validator would pass, such as a
+        # method given twice, once as bytes and once as text)
+        loose = client and ch.chance(64)
+        ep = Endpoint(client, header_encoding=ch.pick([None, None, 'utf-8', 'latin-1']),
+                      **({'validate_outbound_headers': False} if loose else {}))
     if ch.chance(80):
         # settings installed before the connection starts (the way some servers configure it)
         ep.c.local_settings = h2.settings.Settings(
@@ -146,6 +151,19 @@ def fan_transcript(ch, r):
             log.note('recv', 'headers', sid, ep.recv(wire.headers(sid, enc.encode(req[:4] + dup))))
         log.note('recv', 'data', sid, ep.recv(wire.data(sid, b'12345', end_stream=True)))
         r.labels.add('fan:two-content-length-fields')
+    if loose:
+        # the same field under both spellings of its name, with different values: which one the library goes by is
+        # its choice, but the same choice in every process
+        sid = sids[-1] + 4
+        a, b = ch.pick([(b'HEAD', 'GET'), (b'GET', 'HEAD'), (b'HEAD', 'POST')])
+        two = [(b':method', a), (':method', b)]
+        if ch.bool():
+            two.reverse()
+        log.note('call', 'send_headers', sid, ep.call('send_headers', sid, two + req[1:4]))
+        log.note('recv', 'headers', sid, ep.recv(wire.headers(sid, enc.encode([(b':status', b'200'),
+                                                                                (b'content-length', b'12')]),
+                                                              end_stream=True)))
+        r.labels.add('fan:method-under-both-spellings')
     _ = ep.c.open_inbound_streams, ep.c.open_outbound_streams
     if small_memory:
         # late frames on every stream: which of them are still remembered must not depend on anything but the calls
